@@ -144,8 +144,9 @@ Fixpoint dom_run (k : kind) (st : cdstate) (cs : list call) : list outcome :=
 
 (** ** What a node kind can hold (XML 1.0 5th ed.)
 
-    DOM Level 1 does not say what happens when the string handed to a mutator cannot be the
-    content of the node in any XML document.  C16 is claimed for arguments that can: *)
+    DOM Level 1 does not say what happens when a mutator would leave the node with a string
+    that cannot be the content of such a node in any XML document.  C16 is claimed for calls whose
+    result can ([call_storable] below): *)
 
 Definition isChar (c : N) : bool := eval spec_Char c.
 
@@ -195,13 +196,29 @@ Definition arg_of (c : call) : str :=
   | _ => []
   end.
 
-Definition call_storable (k : kind) (c : call) : bool := storable k (arg_of c).
+(** the calls that write the data of the receiver *)
+Definition writes_data (c : call) : bool :=
+  match c with
+  | Append _ | Insert _ _ | Delete _ _ | Replace _ _ _ | SetData _ => true
+  | _ => false
+  end.
+
+(** the string the node would hold after the call can be the content of such a node.  (A
+    harmless fragment can complete a forbidden sequence -- "]]" then ">" -- and a deletion can
+    create one; what matters is the result.) *)
+Definition call_storable (k : kind) (st : cdstate) (c : call) : bool :=
+  if writes_data c
+  then match dom_call k st c with
+       | Done _ st' => storable k (data st')
+       | _ => true
+       end
+  else true.
 
 (** ** The oracle of the failing-input search: DOM Level 1 where it speaks, [None]
     (unspecified: nothing but "no crash" is required, and the history is not followed
-    further) where the argument cannot be held by the node kind. *)
+    further) where the resulting data cannot be held by the node kind. *)
 Definition spec_call (k : kind) (st : cdstate) (c : call) : option outcome :=
-  if call_storable k c then Some (dom_call k st c) else None.
+  if call_storable k st c then Some (dom_call k st c) else None.
 
 Fixpoint spec_run (k : kind) (st : cdstate) (cs : list call) : list (option outcome) :=
   match cs with
